@@ -27,6 +27,7 @@ type zkCase struct {
 	stmt    []int                          // indices of statement arguments
 	proof   []int                          // indices of proof arguments (single integers, points, or lists)
 	parts   int                            // wire arity (0 = no NonEmptyMultiBytes codec)
+	wireTag string                         // curve tag handed to the decoder, for codecs that rebuild a point
 	wire    func(args []string) []*big.Int // proof components in wire order
 	extreme string                         // non-empty: which coin of the model prover sits at the end of its range
 	origin  string                         // "go-prover" | "model-prover"
@@ -310,6 +311,13 @@ func bobCase(r *Run, rng *rand.Rand, tag string, alice, bob *keygen.LocalPartySa
 		B = crypto.ScalarBaseMult(c, b)
 		zc.stmt = append(zc.stmt, 9)
 		zc.proof = append(zc.proof, 10)
+		// on the wire Bob's proof with check is the 10 numbers followed by the coordinates of U
+		zc.parts = mta.ProofBobWCBytesParts
+		zc.wireTag = tag
+		zc.wire = func(a []string) []*big.Int {
+			u := dPoint(c, a[10])
+			return append(dInts(a[8]), u.X(), u.Y())
+		}
 	}
 	if modelProver {
 		q3 := new(big.Int).Mul(q, new(big.Int).Mul(q, q))
